@@ -4,9 +4,9 @@ S=$(realpath "$1"); shift
 PROPS="$@"
 if [ -z "$PROPS" ]; then PROPS=$(python3 -c "import json;print(' '.join(c['property_id'] for c in json.load(open('/verif/MANIFEST.json'))['checks']))"); fi
 W=$(mktemp -d /tmp/tryseed.XXXXXX)
-/verif/tools/scratch.sh $W
+${VERIF_HOME:-/verif}/tools/scratch.sh $W
 if ! patch -s -p1 -d $W < "$S/patch.diff"; then echo "PATCH FAILED"; rm -rf $W; exit 3; fi
-cd /verif
+cd ${VERIF_HOME:-/verif}
 for p in $PROPS; do
   out=$(VERIF_REPO=$W VERIF_EVIDENCE_DIR=$W/.evidence python3 sa/check.py $p 2>&1); rc=$?
   if [ $rc -ne 0 ]; then echo "--- $p rc=$rc"; echo "$out" | grep -E "violated|ANALYSIS-ERROR" | sed "s#$W/##" | cut -c1-400 | head -6; fi
